@@ -756,3 +756,35 @@ func (m *Module) Mutate(r *rand.Rand, kind string) string {
 	}
 	return ""
 }
+
+// AddSharedValue appends a small structure to the module: a wire.Value whose
+// expression is an identifier-only list, declared in a set of its own package
+// "shv", consumed by injectors of two other packages, one of which also uses a
+// second package that is also NAMED shv — so the generated files of the two
+// consumers give the value's package different import names.
+func (m *Module) AddSharedValue() {
+	np := len(m.Pkgs)
+	nt := len(m.Types)
+	prov := 0
+	for _, t := range m.Types {
+		if t.Src.ProvID > prov {
+			prov = t.Src.ProvID
+		}
+	}
+	a := &Pkg{Idx: np, Path: "shv", Name: "shv", NFiles: 1}
+	b := &Pkg{Idx: np + 1, Path: "alt/shv", Name: "shv", NFiles: 1}
+	x := &Pkg{Idx: np + 2, Path: "shx", Name: "shx", NFiles: 1}
+	y := &Pkg{Idx: np + 3, Path: "shy", Name: "shy", NFiles: 1}
+	m.Pkgs = append(m.Pkgs, a, b, x, y)
+	setID := len(m.Sets)
+	v := &Type{Idx: nt, Pkg: a.Idx, Name: "Hosts", Kind: "slice", Src: Source{Kind: "value", ConstID: 1000 + 2*nt, Home: setID}}
+	w := &Type{Idx: nt + 1, Pkg: b.Idx, Name: "Legacy", Kind: "struct", Src: Source{Kind: "func", Name: "NewLegacy", ProvID: prov + 1, Home: -1}}
+	zx := &Type{Idx: nt + 2, Pkg: x.Idx, Name: "AppX", Kind: "struct", Ptr: true, Src: Source{Kind: "func", Name: "NewAppX", ProvID: prov + 2, Params: []Ref{{Idx: nt}}, Home: -1}}
+	zy := &Type{Idx: nt + 3, Pkg: y.Idx, Name: "AppY", Kind: "struct", Ptr: true, Src: Source{Kind: "func", Name: "NewAppY", ProvID: prov + 3, Params: []Ref{{Idx: nt + 1}, {Idx: nt}}, HasErr: true, Home: -1}}
+	m.Types = append(m.Types, v, w, zx, zy)
+	m.Sets = append(m.Sets, &Set{ID: setID, Pkg: a.Idx, Name: "HostSet", Members: []int{nt}, Parent: -1})
+	m.Injectors = append(m.Injectors,
+		&Injector{Pkg: x.Idx, Name: "InitShx", Result: Ref{Idx: nt + 2, Ptr: true}, Build: []Item{{Set: setID, Type: -1}, {Set: -1, Type: nt + 2}}},
+		&Injector{Pkg: y.Idx, Name: "InitShy", Result: Ref{Idx: nt + 3, Ptr: true}, DeclErr: true, NeedErrs: 1, Build: []Item{{Set: -1, Type: nt + 1}, {Set: setID, Type: -1}, {Set: -1, Type: nt + 3}}},
+	)
+}
